@@ -77,6 +77,18 @@ pub fn main(path: &str) -> i32 {
             return 2;
         }
     };
+    if case.get("subject_build").and_then(|s| s.as_str()) == Some("release") && std::env::var("FQV_VARIANT_REPLAY").is_err() {
+        // found against the subject as a release build makes it: replay there
+        let dir = std::env::var("VERIF_DIR").unwrap_or_else(|_| "/verif".to_string());
+        let target = std::env::var("CARGO_TARGET_DIR").unwrap_or_else(|_| format!("{}/target", dir));
+        let built = std::process::Command::new("cargo").args(["build", "--profile", "relsubject", "--offline"]).current_dir(format!("{}/harness", dir)).output();
+        if !built.map(|o| o.status.success()).unwrap_or(false) {
+            eprintln!("MACHINERY: the release-subject harness does not build");
+            return 2;
+        }
+        let st = std::process::Command::new(format!("{}/relsubject/fqv", target)).args(["replay", path]).env("FQV_VARIANT_REPLAY", "1").status();
+        return st.ok().and_then(|s| s.code()).unwrap_or(2);
+    }
     let a = run_case(&prop, &case);
     let b = run_case(&prop, &case);
     match (a, b) {
